@@ -374,7 +374,7 @@ func copyFileTo(src, dst string) error {
 }
 
 func runSourceFaults(c *Ctx) error {
-	fam := c.Rep.Family("source-faults", "one rich configuration (plain file, config file, glob, tree, symlink; the four lifecycle scripts and every format-specific script; a changelog file; signing key files for deb, rpm, apk), every referenced file a private copy. Exhaustively for every file reference (incl. the sources of the rpm-only entry types doc, licence, license, readme) x every format that uses it x three ways of making it unreadable (setting repointed to a path that does not exist; the copy renamed away; setting repointed to a symbolic link whose target does not exist - for scripts, changelog, key files and the rpm-only entry types, whose content must be read; a file, config or tree source that is a symbolic link is shipped as that link), and for the plain, config and tree sources both again with disable_globbing (the source is then not matched up front, the packager meets the missing file when it reads it): Package must return a non-nil error; the reference is restored afterwards and the fault-free configuration re-checked at the end. The symlink entry is not a file reference (its source is the link text). non-trivial = always")
+	fam := c.Rep.Family("source-faults", "one rich configuration (plain file, config file, glob, tree, symlink; the four lifecycle scripts and every format-specific script; a changelog file; signing key files for deb, rpm, apk), every referenced file a private copy. Exhaustively for every file reference (incl. the sources of the rpm-only entry types doc, licence, license, readme) x every format that uses it x four ways of making it unreadable (setting repointed to a path that does not exist; the copy renamed away; setting repointed to a symbolic link whose target does not exist, setting repointed to a directory - both for scripts, changelog, key files and the rpm-only entry types, whose content must be read; a file, config or tree source that is a symbolic link is shipped as that link), and for the plain, config and tree sources both again with disable_globbing (the source is then not matched up front, the packager meets the missing file when it reads it): Package must return a non-nil error; the reference is restored afterwards and the fault-free configuration re-checked at the end. The symlink entry is not a file reference (its source is the link text). non-trivial = always")
 	fam.Exhaustive = true
 	dir := filepath.Join(c.Tmp, "c06refs")
 	for _, d := range []string{"", "globdir", "treedir", "treedir/sub", "scripts", "gone"} {
@@ -499,7 +499,7 @@ func runSourceFaults(c *Ctx) error {
 				// the setting names a symbolic link whose target does not exist (a link left behind by a cleaned build
 				// directory): lstat succeeds, reading fails.  Not for file / config / tree sources: a source that is a
 				// symbolic link is shipped as that link, with its literal target (C01), so nothing needs to be read
-				variants = append(variants, "dangling-symlink")
+				variants = append(variants, "dangling-symlink", "directory-in-its-place")
 			}
 			if r.kind == "content-source" && r.name != "contents.glob" && !rpmOnlyType {
 				variants = append(variants, "repointed+disable_globbing", "renamed-away+disable_globbing")
@@ -514,6 +514,14 @@ func runSourceFaults(c *Ctx) error {
 					missing = filepath.Join(dir, "gone", "missing-"+filepath.Base(r.remove))
 					if r.remove != r.path { // glob: pattern under a directory that does not exist
 						missing = filepath.Join(missing, filepath.Base(r.path))
+					}
+					err, pv = safePackage(f, mk(map[string]string{r.name: missing}, noglob), io.Discard)
+				case "directory-in-its-place":
+					// the path opens but cannot be read as a file
+					missing = filepath.Join(dir, "gone", "directory-"+filepath.Base(r.path))
+					if merr := os.MkdirAll(missing, 0o755); merr != nil {
+						c.Rep.Note("source-faults: mkdir %s: %v", missing, merr)
+						continue
 					}
 					err, pv = safePackage(f, mk(map[string]string{r.name: missing}, noglob), io.Discard)
 				case "dangling-symlink":
@@ -984,6 +992,7 @@ func CliTargetCases(c *Ctx, fam *report.Family, bin string) {
 		args  []string // arguments after `package`
 		want  string   // where the package must appear ("" = the command must fail)
 		extra []string // further entries of the working directory that are expected
+		moved bool     // the configuration was moved out of the working directory (extra lists where it is)
 	}
 	// expect runs the command in a fresh directory. want != "": exit 0, a package of
 	// format f exactly there and nothing else new. want == "": non-zero exit, the
@@ -1019,6 +1028,9 @@ func CliTargetCases(c *Ctx, fam *report.Family, bin string) {
 		}
 		relWant, _ := filepath.Rel(dir, p.want)
 		wantList := append([]string{"nfpm.yaml", relWant}, p.extra...)
+		if p.moved {
+			wantList = append([]string{relWant}, p.extra...)
+		}
 		if !sameList(listing, wantList) {
 			find(cs, fmt.Sprintf("%s: `%s` creates other entries than the expected target: %v, expected %v", f, cmdline, listing, wantList), in)
 		}
@@ -1037,6 +1049,25 @@ func CliTargetCases(c *Ctx, fam *report.Family, bin string) {
 			expect("omitted", v, f, func(d string) plan {
 				return plan{args: []string{"-p", f}, want: filepath.Join(d, conv)}
 			})
+			// the configuration lives in another directory (-f conf/nfpm.yaml): targets are still relative to the
+			// working directory of the command
+			for _, tc := range []struct {
+				name string
+				args []string
+				rel  string
+				dirs []string
+			}{{"omitted", nil, conv, nil}, {"file", []string{"-t", "out" + cliExt[f]}, "out" + cliExt[f], nil}, {"existing-dir", []string{"-t", "dist"}, filepath.Join("dist", conv), []string{"dist/"}}} {
+				tc := tc
+				expect("config-elsewhere:"+tc.name, v, f, func(d string) plan {
+					_ = os.Mkdir(filepath.Join(d, "conf"), 0o755)
+					_ = os.Rename(filepath.Join(d, "nfpm.yaml"), filepath.Join(d, "conf", "nfpm.yaml"))
+					for _, sub := range tc.dirs {
+						_ = os.Mkdir(filepath.Join(d, sub), 0o755)
+					}
+					return plan{args: append([]string{"-p", f, "-f", filepath.Join("conf", "nfpm.yaml")}, tc.args...), want: filepath.Join(d, tc.rel),
+						extra: append([]string{"conf/", "conf/nfpm.yaml"}, tc.dirs...), moved: true}
+				})
+			}
 			// -t existingDir: relative, and absolute with a space and a trailing slash
 			expect("existing-dir", v, f, func(d string) plan {
 				_ = os.Mkdir(filepath.Join(d, "outdir"), 0o755)
